@@ -67,7 +67,7 @@ func VxC20_Sample() {
 	}
 	a := run()
 	vx.Thaw()
-	vx.Assert(vx.NoGlobalWrites(), "no package-level state is written by the Sample queries")
+	noGlobals := vx.NoGlobalWrites()
 	vxUnrelated()
 	vx.Freeze(xs, ws)
 	b := run()
@@ -83,6 +83,8 @@ func VxC20_Sample() {
 		fresh := Sample{Xs: append([]float64(nil), ys...)}
 		vx.Assert(vxSameResult(s.Quantile(q), fresh.Quantile(q)) && vxSameResult(s.IQR(), fresh.IQR()), "a query depends only on the current contents of the sample, not on earlier calls")
 	}
+	// (checked last: a violation of it cannot be observed natively, the behavioural assertions above can)
+	vx.Assert(noGlobals, "no package-level state is written by the Sample queries")
 }
 
 // VxC20_Tests: MannWhitneyUTest, UDist, QuantileCI/SampleCI and KDE leave their inputs alone and are deterministic.
